@@ -16,6 +16,7 @@
    stream fields here.  Molar rows are dense vectors (stored keys = non-zero entries is C09's).
    No proofs in this file. *)
 From V Require Export Common.Num.
+From Coq Require Export Qround.
 
 Inductive phase := Pg | Pl | Ps | PL | PS.
 Definition pcode (p : phase) : nat :=     (* ASCII order used by phase_tuple: 'L' < 'S' < 'g' < 'l' < 's' *)
@@ -74,7 +75,8 @@ Definition gettp h t : Q * Q := nth t (tps h) (0, 0).
 Definition getbox h b : phase := nth b (boxes h) Pl.
 Definition getcache h c : cache := nth c (caches h) cache0.
 
-Definition put_row h r v := set_rows h (upd (rows h) r v).
+(* stored numbers are kept in lowest terms (Qred x == x): evaluation speed only *)
+Definition put_row h r (v : vec) := set_rows h (upd (rows h) r (map Qred v)).
 Definition put_arr h a l := set_arrs h (upd (arrs h) a l).
 Definition put_tp h t x := set_tps h (upd (tps h) t x).
 Definition put_box h b p := set_boxes h (upd (boxes h) b p).
@@ -211,7 +213,7 @@ Definition vfactor h (vv : volview) (r : vrow) (k : nat) : Q * vrow :=
   let T := fst (gettp h (vv_tp vv)) in
   let P := snd (gettp h (vv_tp vv)) in
   let ph := src_phase h (vr_src r) in
-  let V := 1000 * Vf (gid (vv_pkg vv) k) (base ph) T P in
+  let V := Qred (1000 * Vf (gid (vv_pkg vv) k) (base ph) T P) in
   let fresh := (V, mkvrow (vr_dct r) (vr_src r) ((k, mkme T P ph V) :: vr_memo r)) in
   match memo_get k (vr_memo r) with
   | Some e => if phase_eqb (me_ph e) ph && qeqb (me_T e) T && qeqb (me_P e) P then (me_V e, r) else fresh
@@ -666,8 +668,10 @@ Definition fin_eqb (a b : fin) : bool :=
   && res_eqb qapproxb (f_Fvol a) (f_Fvol b) && res_eqb (list_eqb Bool.eqb) (f_alias a) (f_alias b).
 
 (* ---------- the stand-ins used by the correspondence harness (props/C11.py) ---------- *)
+Definition jitter (x : Q) : Z := Z.modulo (Qfloor (x * 2199023255552)) 8.     (* bits of x around 2^-41 *)
 Definition vstub (g : nat) (p : phase) (T P : Q) : Q :=
-  (Z.of_nat (1 + g) # 64) + (match p with Ps | PS => 1 | Pl | PL => 2 | Pg => 5 end # 8) + T / 4096 + P / 67108864.
+  (Z.of_nat (1 + g) # 64) + (match p with Ps | PS => 1 | Pl | PL => 2 | Pg => 5 end # 8) + T / 4096 + P / 67108864
+  + ((jitter T + jitter P) # 16).
 Definition mwstub (g : nat) : Q := nth g [16; 32; 8; 4] 1.
 Definition pkgstub : list (list nat) := [[0; 1; 2]; [2; 0; 3; 1]]%nat.
 
